@@ -96,7 +96,7 @@ impl Stats {
     pub fn bump(&mut self, key: &str) { *self.dist.entry(key.to_string()).or_insert(0) += 1; }
     pub fn add(&mut self, key: &str, n: u64) { *self.dist.entry(key.to_string()).or_insert(0) += n; }
     pub fn sample(&mut self, v: serde_json::Value) { if self.samples.len() < 5 { self.samples.push(v); } }
-    pub fn violation(&mut self, v: serde_json::Value) { if self.violations.len() < 50 { self.violations.push(v); } else { self.bump("violations_dropped"); } }
+    pub fn violation(&mut self, v: serde_json::Value) { if self.violations.len() < 400 { self.violations.push(v); } else { self.bump("violations_dropped"); } }
     pub fn to_json(&self, rule: &str) -> serde_json::Value {
         serde_json::json!({
             "evaluations": self.evaluations,
